@@ -32,6 +32,16 @@ Section C11.
     (bary_s t (x2, y2) = 0 /\ bary_t t (x2, y2) = 1).
   Proof. exact interpolation_nodal. Qed.
 
+  (** no point of a closed triangle is turned away: over exact reals the point-in-triangle test accepts every point with
+      barycentric coordinates s, t >= 0, s + t <= 1 (its tolerances are non-negative); the triangles come clockwise in the
+      surface coordinates (tri_det < 0), which lib/cases.py checks on every triangulation the implementation builds.
+      In binary64 the tolerances must also exceed the rounding error of the sums they guard: defect D33 was a tolerance that
+      did not, for small triangles far from the origin. *)
+  Theorem C11_no_point_of_a_triangle_is_missed : forall (t : @tri R) (p : R * R),
+    tri_det t < 0 -> 0 <= bary_s t p -> 0 <= bary_t t p -> bary_s t p + bary_t t p <= 1 ->
+    exists v, @in_triangle R N t p = Some v.
+  Proof. exact (in_triangle_complete sp). Qed.
+
   (** affine data are reproduced exactly by every non-degenerate triangle: whatever triangulation *)
   Theorem C11_affine : forall (t : @tri R) p A B C v,
     tri_det t <> 0 ->
@@ -73,5 +83,6 @@ Print Assumptions C11_value.
 Print Assumptions C11_bounds.
 Print Assumptions C11_node.
 Print Assumptions C11_affine.
+Print Assumptions C11_no_point_of_a_triangle_is_missed.
 Print Assumptions C11_merge_listed.
 Print Assumptions C11_corner_override_refuted.
